@@ -26,7 +26,7 @@ RULE = (
     'exception (a dataset without any water level must be refused with the '
     'explicit "No valid data intervals" error and left unchanged); no rise '
     'and no storm repeated in the pairing (counted by the harness); every '
-    'pair references existing rows; every pair shares a time step. '
+    'pair references existing rows; every pair shares a time step. Part matching_enum: the pairing core (find_stable_matching) on the enumerated strict preference instances up to 3 storms x 3 rises returns a one-to-one subset of the candidate edges. '
     'Non-trivial: contention (a storm overlapping >= 2 rises or vice versa), '
     'or a run touching an end of its stretch, or >= 2 data intervals, or a '
     'stretch of < 2 samples; distinct = SHA-1 of the case.'
@@ -216,7 +216,39 @@ def check_after_interrupt(case):
     return labels
 
 
+def check_matching_one_to_one(case):
+    """The pairing core on an enumerated instance (the instances of C02's
+    exhaustive part): whatever preferences say, the result pairs every
+    storm and every rise at most once and only along candidate edges."""
+    from vfw.props import C02
+    from vfw import model_matching as mm
+    s_order, _, cand, prefs, _ = C02.case_to_inputs(case)
+    edges = {(s, r) for s, rs in s_order.items() for r in rs}
+    result = dict(C02.run_fsm(cand, prefs))
+    bad = mm.is_matching(result, edges)
+    if bad:
+        raise Violation(bad, repr(result))
+    labels = set()
+    if mm.max_degree(edges) >= 2:
+        labels.add('nontrivial')
+    return labels
+
+
+def enum_matching(tier, shard, nshards):
+    from vfw.props import C02
+    stride = 1 if tier == 'thorough' else 4
+    for index, case in enumerate(C02.enum_cases(tier, shard, nshards)):
+        if index % stride == 0:
+            yield case
+
+
 PARTS = [
+    Part('matching_enum', check_matching_one_to_one, enumerate=enum_matching,
+         shards={'quick': 16, 'thorough': 16},
+         exhaustive={'quick': False, 'thorough': True},
+         describe='find_stable_matching one-to-one on the strict instances '
+                  '<= 3x3 (every 4th in the quick tier, all 131,817 in the '
+                  'thorough tier)'),
     Part('after_interrupt', check_after_interrupt,
          strategy=lambda tier: interrupted_cases(tier),
          budget={'quick': 40, 'thorough': 600},
